@@ -23,6 +23,12 @@ def generate(rng, kind, n):
             c["reload_before"] = k
             if rng.random() < 0.7:
                 ops[k] = list(ops[k]); ops[k][0], ops[k][1] = ops[k - 1][0], ops[k - 1][1]
+        if len(ops) >= 2 and not c.get("reload_before") and rng.random() < 0.3:
+            # del o[variant] between two adds; the add that follows addresses the cell that was addressed just before
+            k = rng.randrange(1, len(ops))
+            c["del_before"] = [k, ops[k - 1][0]]
+            if rng.random() < 0.7:
+                ops[k] = list(ops[k]); ops[k][0], ops[k][1] = ops[k - 1][0], ops[k - 1][1]
         if kind == "modules" and rng.random() < 0.5:
             # one list object handed to several add calls (shared by reference in the implementation run only)
             c["shared"] = [["a-0:1-1.x86_64", "b-0:1-1.noarch"], ["c-0:2-1.x86_64"]]
@@ -48,6 +54,11 @@ def impl_roundtrip(case):
     for k, v in case["compose"].items():
         setattr(o.compose, k, v)
     for i, op in enumerate(OM.resolve_ops(case, True)):
+        if case.get("del_before") and case["del_before"][0] == i:
+            try:
+                del o[case["del_before"][1]]
+            except (KeyError, TypeError):
+                pass
         if case.get("reload_before") == i:
             try:
                 o.loads(o.dumps())
@@ -58,11 +69,13 @@ def impl_roundtrip(case):
         except EXC:
             pass
     built = copy.deepcopy(getattr(o, ATTR[kind]))
+    from suites.common import snap
+    before = snap(o)
     try:
         text = o.dumps()
     except EXC as e:
         return exc_result(e)
-    api = api_consistency(o, lambda: _new(kind), text)
+    api = api_consistency(o, lambda: _new(kind), text, before=before)
     if api:
         return ["api-inconsistent", api]
     o2 = _new(kind)
@@ -79,6 +92,11 @@ def impl_roundtrip(case):
 
 def impl_load(case):
     o = _new(case["kind"])
+    if case.get("preload"):
+        try:
+            o.loads(json.dumps(case["preload"]))          # the same object is used for a second load
+        except Exception:
+            pass
     try:
         o.loads(json.dumps(case["doc"]))
     except EXC as e:
@@ -88,3 +106,12 @@ def impl_load(case):
     except EXC as e:
         again = exc_result(e)
     return ["ok", [_compose(o), getattr(o, ATTR[case["kind"]]), again]]
+
+
+def equivalent_ops(case):
+    """the add history with the same final content: everything filed under the deleted variant before the deletion is gone"""
+    ops = OM.resolve_ops(case, False)
+    if case.get("del_before"):
+        k, v = case["del_before"]
+        ops = [op for op in ops[:k] if op[0] != v] + ops[k:]
+    return ops
